@@ -1,14 +1,15 @@
 --------------------------- MODULE ExportContextGen ---------------------------
 (* E03 -- script generator: behaviours of ExportContext.tla (run with TLC -simulate, seeded) projected to what the
    driver harness/exportctx controls:
-     steps  send r with its attributes (items, span context kind, caller deadline class, cancellation "pre"/"post"/"no")
+     steps  send r with its attributes (items, span context kind -- "chain": the context of an upstream merged batch
+            with links up --, caller deadline class, cancellation "pre"/"post"/"no")
             cancel r   the producer's context is cancelled after its call returned
             wait       a pause that lets the flush timer fire (taken only at a quiet moment: everything handed in
                        has been consumed, no export in progress)
      outs   the outcome of the k-th call of the export function ("transient" only while another attempt will follow,
             so that the real retry loop ends where the behaviour ends)
    The configuration is one of ParamCfgs.  A behaviour is printed when the exporter has been shut down and is
-   quiescent.  Nothing is expected from the run here: the recorded trace is validated by ExportContextTrace.tla. *)
+   quiescent (Emit), or -- directed generation, exhaustive -- only if it exhibits the known defect (EmitDefect).  Nothing is expected from the run here: the recorded trace is validated by ExportContextTrace.tla. *)
 EXTENDS ExportContext, ExportContextParams, Json
 
 VARIABLES steps, outs
@@ -16,6 +17,7 @@ gvars == <<vars, steps, outs>>
 
 AttrOK(a) == /\ a.cancel = "post" => cfg.queue \in {"memory", "persistent"}
              /\ a.cancel = "pre"  => cfg.queue \in {"memory", "persistent", "none"}
+             /\ a.sc = "chain"    => ~cfg.enq /\ cfg.queue # "persistent"
 NextReq == ParamReqs[Cardinality(DOMAIN sent) + 1]
 Quiet == queue = <<>> /\ cfl = <<>> /\ tfl = <<>> /\ infl = <<>>
 
@@ -25,7 +27,7 @@ GNext ==
   \/ \E a \in ParamAttrs :
         /\ Cardinality(DOMAIN sent) < Len(ParamReqs) /\ AttrOK(a)
         /\ SendCore(NextReq, a, 0, IF a.dl = 0 THEN NoTime ELSE a.dl)
-        /\ steps' = Append(steps, [op |-> "send", r |-> NextReq, n |-> a.n, sc |-> a.sc, dl |-> a.dl, cancel |-> a.cancel])
+        /\ steps' = Append(steps, [op |-> "send", r |-> NextReq, n |-> a.n, sc |-> a.sc, dl |-> a.dl, cancel |-> a.cancel, up |-> a.up])
         /\ UNCHANGED outs
   \/ \E r \in DOMAIN sent : Cancel(r) /\ steps' = Append(steps, [op |-> "cancel", r |-> r]) /\ UNCHANGED outs
   \/ (\E i \in DOMAIN queue : ConsumeAt(i)) /\ UNCHANGED <<steps, outs>>
@@ -42,5 +44,9 @@ GNext ==
   \/ Shutdown /\ (cfg.queue = "none" => Quiet) /\ UNCHANGED <<steps, outs>>
 
 GSpec == GInit /\ [][GNext]_gvars
+\* directed generation (exhaustive, Variant = "alias"): only the behaviours in which the model of the tree as it is breaks
+\* LinksComplete -- counterexamples of the design, replayed on the real code
+EmitDefect == (Quiescent /\ ~InvLinksComplete) =>
+                PrintT(<<"BEH", ToJson([cfg |-> cfg, steps |-> steps, outs |-> outs, ncalls |-> Len(calls)])>>)
 Emit == Quiescent => PrintT(<<"BEH", ToJson([cfg |-> cfg, steps |-> steps, outs |-> outs, ncalls |-> Len(calls)])>>)
 =============================================================================
